@@ -67,6 +67,9 @@ if do_public:
         "ep.set_diff(ep)": lambda: ep.set_diff(ep), "crosscorr with empty target": lambda: nap.compute_crosscorrelogram(nap.TsGroup({0: ts, 1: tse}, time_support=nap.IntervalSet(0.0, 20.0)), 1.0, 3.0),
         "perievent_continuous one sample": lambda: nap.compute_perievent_continuous(nap.Tsd(np.array([0.0, 1.0]), np.array([1.0, 2.0])), nap.Ts(np.array([0.5])), 1.0),
         "perievent_continuous no event": lambda: nap.compute_perievent_continuous(nap.Tsd(np.arange(5.0), np.arange(5.0)), nap.Ts(np.array([50.0])), 1.0, ep=nap.IntervalSet(0.0, 4.0)),
+        # IEEE-only: a step lost to rounding at large |t| (exact rationals advance; doubles did not: fixed in d86eb2b)
+        "mean_psd step absorbed by rounding": lambda: nap.compute_mean_power_spectral_density(nap.Tsd(1.7e9 + np.arange(0, 1, 0.001), np.arange(1000.0)), 1e-7),
+        "_overlap_split step shrunk by rounding": lambda: __import__("pynapple.process.spectrum", fromlist=["x"])._overlap_split(np.array([1.7e9]), np.array([1.7e9 + 0.01]), 3.3e-7, 0.0),
         "mean_psd short": lambda: nap.compute_mean_power_spectral_density(nap.Tsd(np.arange(0, 2, 0.01), np.arange(200.0)), 0.5),
     }
     for label, f in calls.items():
